@@ -24,6 +24,7 @@ DEFAULT = {
     "md026": {"punctuation": ".,;:!。，；：！"},
     "md035": {"style": "consistent"},
     "md004": {"style": "consistent"},
+    "md024": {"siblings_only": False},
 }
 
 
@@ -42,9 +43,9 @@ CONFIGS = {
     "strict": _cfg(md013={"line_length": 15, "code_blocks": False, "headings": False, "strict": True}, md009={"strict": True}, md012={"maximum": 0},
                    md003={"style": "setext_with_atx"}, md046={"style": "indented"}, md048={"style": "backtick"}, md035={"style": "***"}, md004={"style": "sublist"},
                    md022={"lines_above": 2, "lines_below": 0}),
-    "code-low": _cfg(md013={"line_length": 30, "code_block_line_length": 12, "heading_line_length": 30}, md003={"style": "setext"}, md022={"lines_above": 1, "lines_below": 2}, md004={"style": "plus"}),
+    "code-low": _cfg(md013={"line_length": 30, "code_block_line_length": 12, "heading_line_length": 30}, md003={"style": "setext"}, md022={"lines_above": 1, "lines_below": 2}, md004={"style": "plus"}, md024={"siblings_only": True}),
     "head-low": _cfg(md013={"line_length": 30, "code_block_line_length": 30, "heading_line_length": 12, "code_blocks": True}, md003={"style": "atx_closed"}, md004={"style": "dash"}),
-    "closed": _cfg(md013={"line_length": 25, "code_block_line_length": 40, "heading_line_length": 18}, md003={"style": "setext_with_atx_closed"}, md009={"br_spaces": 0}),
+    "closed": _cfg(md013={"line_length": 25, "code_block_line_length": 40, "heading_line_length": 18}, md003={"style": "setext_with_atx_closed"}, md009={"br_spaces": 0}, md024={"siblings_only": True}),
 }
 
 W = ["# a", "## b", "### c.", "#d", "#  e", " # f", "a", "", "long line with words xx", "averyveryverylongwordwithoutspaces", "tail  ", "tail ", "tail   ",
@@ -57,7 +58,7 @@ def spec_params(c):
          c["md013"]["line_length"], c["md013"]["code_block_line_length"], c["md013"]["heading_line_length"], int(c["md013"]["code_blocks"]), int(c["md013"]["headings"]), int(c["md013"]["strict"]),
          c["md012"]["maximum"], c["md022"]["lines_above"], c["md022"]["lines_below"], c["md025"]["level"], c["md041"]["level"],
          STYLE3[c["md003"]["style"]], {"consistent": 0, "fenced": 1, "indented": 2}[c["md046"]["style"]], {"consistent": 0, "backtick": 1, "tilde": 2}[c["md048"]["style"]],
-         {"consistent": 0, "asterisk": 1, "plus": 2, "dash": 3, "sublist": 4}[c["md004"]["style"]]]
+         {"consistent": 0, "asterisk": 1, "plus": 2, "dash": 3, "sublist": 4}[c["md004"]["style"]], int(c["md024"]["siblings_only"])]
     hr = "" if c["md035"]["style"] == "consistent" else c["md035"]["style"]
     return " ".join(map(str, p)) + " " + extract.enc_str(c["md026"]["punctuation"]) + " " + extract.enc_str(hr)
 
@@ -196,8 +197,8 @@ def run(ctx):
     ]
     return ctx.finish(
         level="other",
-        rule="documents of <= 3 lines over a 40-template vocabulary of headings, long lines, trailing spaces, fences, breaks and containers, a fixed 30000-document sample of 4-line documents, 3-line documents over the general 60-template vocabulary; each under 6 configurations (default + 5 that move every documented configuration item); quick = seed-selected subsets, each document under the default and one other configuration; non-trivial = a case in which some rule reports or must report; distinct by (document, configuration)",
-        assumptions=["inside F (no inline markup, no HTML, no tabs, no link definitions); rules MD010, MD042, MD045 are outside this specification", "md013.stern, md009.list_item_empty_lines, md003.allow-setext-update, md024's options and front-matter titles are not varied"],
+        rule="documents of <= 3 lines over a 42-template vocabulary of headings, long lines, trailing spaces, fences, breaks and containers, a fixed 30000-document sample of 4-line documents, 3-line documents over the general 60-template vocabulary; each under 6 configurations (default + 5 that move every documented configuration item); quick = seed-selected subsets, each document under the default and one other configuration; non-trivial = a case in which some rule reports or must report; distinct by (document, configuration)",
+        assumptions=["inside F (no inline markup, no HTML, no tabs, no link definitions); rules MD010, MD042, MD045 are outside this specification", "md013.stern, md009.list_item_empty_lines, md003.allow-setext-update and front-matter titles are not varied"],
         extra_cov={"exhaustive": ctx.tier == "thorough", "explanation": "theorems are about the specification (what its verdicts mean, for all documents); that each rule implements its specification is decided by comparing reported lines on enumerated documents and configurations"},
     )
 
